@@ -31,7 +31,9 @@ ROLES = ('state', 'assigned', 'readonly', 'param', 'globalread', 'globaldecl', '
          'globalcall', 'nestedglobal',
          # the variable of `except E as V` (block inside the handler, V read after it); a name first mentioned AFTER the
          # block, in the body of an enclosing loop; the parameter of a lambda inside a nested def whose body makes a call
-         'exceptvar', 'afterblock', 'nestedlambdaparam')
+         'exceptvar', 'afterblock', 'nestedlambdaparam',
+         # the handler name of a try nested in the body of another handler
+         'nestedexceptvar')
 BLOCKS = ('if', 'while', 'forbreak', 'forcontinue', 'retloop', 'nesteddef', 'lambda')
 _S = {'tier': 'quick'}
 
@@ -80,7 +82,7 @@ def render(item, pid=0):
     use = ['t(%d, %s())' % (K(), V)]
   elif role == 'lambdaparam':
     use = ['q = (lambda %s: %s + 1)(q)' % (V, V)]
-  elif role in ('exceptvar', 'afterblock', 'nestedlambdaparam'):
+  elif role in ('exceptvar', 'afterblock', 'nestedlambdaparam', 'nestedexceptvar'):
     use = ['q = q * 10 + %d' % K()]
   if W:
     use = use + ['t(%d, %s)' % (K(), W)]
@@ -115,6 +117,9 @@ def render(item, pid=0):
       body = ['q = (lambda: %s if c(%d) else 0)()' % (V, K())]
   if role == 'exceptvar':
     body = (['try:', '    raise E(mark(%d))' % K(), 'except E as %s:' % V] + ind(body + ['t(%d, type(%s).__name__)' % (K(), V)]))
+  elif role == 'nestedexceptvar':
+    inner = (['try:', '    raise E(mark(%d))' % K(), 'except E as %s:' % V] + ind(body + ['t(%d, type(%s).__name__)' % (K(), V)]))
+    body = ['try:', '    raise E2()', 'except E2 as outer_err:'] + ind(inner)
   elif role == 'afterblock':
     body = ['for j in it(%d):' % K()] + ind(body + ['%s = %d' % (V, K()), 't(%d, %s)' % (K(), V)])
   elif role == 'nestedlambdaparam':
@@ -145,7 +150,7 @@ def render(item, pid=0):
     glob[V] = 'CALLABLE'
   if W:
     pre.append('%s = 4' % W)
-  ret = ['return (%d, q, %s)' % (pid, V if role not in ('fnname', 'globalcall', 'lambdaparam', 'nestedglobal', 'exceptvar', 'afterblock', 'nestedlambdaparam') else 'q')]
+  ret = ['return (%d, q, %s)' % (pid, V if role not in ('fnname', 'globalcall', 'lambdaparam', 'nestedglobal', 'exceptvar', 'afterblock', 'nestedlambdaparam', 'nestedexceptvar') else 'q')]
   lines = ['def f(%s):' % params] + ['    ' + l for l in pre + body + post + ret]
   if role == 'closure':
     lines = ['def make():', '    %s = 3' % V] + ['    ' + l for l in lines] + ['    return f', 'f = make()']
